@@ -10,8 +10,13 @@ from concurrent.futures import ProcessPoolExecutor
 
 import z3
 
-Z3_TIMEOUT_MS = int(os.environ.get('PYVC_Z3_TIMEOUT_MS', '10000'))
-CLI_TIMEOUT_S = int(os.environ.get('PYVC_CLI_TIMEOUT_S', '10'))
+# Budgets are RESOURCE limits (z3 rlimit: a deterministic count of solver steps), not wall-clock limits, so that a verdict
+# does not depend on how busy the machine is.  The wall-clock values are only a generous safety net.
+Z3_RLIMIT = int(os.environ.get('PYVC_Z3_RLIMIT', '120000000'))
+Z3_TIMEOUT_MS = int(os.environ.get('PYVC_Z3_TIMEOUT_MS', '600000'))
+CLI_RLIMIT = int(os.environ.get('PYVC_CLI_RLIMIT', '120000000'))
+CLI_TIMEOUT_S = int(os.environ.get('PYVC_CLI_TIMEOUT_S', '600'))
+CVC5_TLIMIT_S = int(os.environ.get('PYVC_CVC5_TLIMIT_S', '60'))
 
 
 def to_smt2(axioms, hyps, goal):
@@ -30,6 +35,7 @@ def _solve_z3api(text, timeout_ms):
     s.set('auto_config', False)
     s.set('mbqi', False)
     s.set('timeout', timeout_ms)
+    s.set('rlimit', Z3_RLIMIT)
     s.from_string(text)
     t0 = time.time()
     r = s.check()
@@ -62,7 +68,7 @@ def solve_one(job):
     box = {}
 
     def cli():
-        box['cli'] = _solve_cli(['/usr/bin/z3', 'smt.auto_config=false', 'smt.mbqi=false',
+        box['cli'] = _solve_cli(['/usr/bin/z3', 'smt.auto_config=false', 'smt.mbqi=false', 'rlimit=%d' % CLI_RLIMIT,
                                  '-T:%d' % CLI_TIMEOUT_S], text, CLI_TIMEOUT_S + 5)
     th = threading.Thread(target=cli)
     th.start()
@@ -75,7 +81,7 @@ def solve_one(job):
     r2, dt2 = box['cli']
     results.append(('z3-4.8.12-cli', r2, dt2))
     if r != 'unsat' and r2 != 'unsat':
-        r3, dt3 = _solve_cli(['/usr/bin/cvc5', '--tlimit=%d' % (CLI_TIMEOUT_S * 1000)], text, CLI_TIMEOUT_S + 5)
+        r3, dt3 = _solve_cli(['/usr/bin/cvc5', '--tlimit=%d' % (CVC5_TLIMIT_S * 1000)], text, CVC5_TLIMIT_S + 5)
         results.append(('cvc5-1.0.3-cli', r3, dt3))
     return oid, results
 
